@@ -561,7 +561,7 @@ pub fn generate(seed: u64, case: u64, max_steps: usize) -> Ran {
     let mut r = Rng::new(seed ^ case.wrapping_mul(0x9FB21C651E98DF25) ^ 0x4444);
     let users = 4;
     let h0 = 2 + r.below(4);
-    let t0 = 1_000_000_000u64 * (10 + r.below(5));
+    let t0 = 1_000_000_000u64 * (10 + r.below(5)) + if r.chance(1, 2) { r.below(1_000_000_000) } else { 0 };
     let mut w = World::new(users, h0, t0);
     let n = w.pool.len();
     let user_ids: Vec<usize> = w.users.iter().map(|u| w.pool.id(u.as_str()).unwrap()).collect();
@@ -626,7 +626,7 @@ pub fn generate(seed: u64, case: u64, max_steps: usize) -> Ran {
         if r.chance(1, 2) {
             let dh = 1 + r.below(2);
             h += dh;
-            t += 1_000_000_000 * dh;
+            t += 1_000_000_000 * dh + if r.chance(1, 2) { r.below(900_000_000) } else { 0 };
         }
         let any_user = *r.pick(&user_ids);
         let adm = match cur.admin {
